@@ -2,6 +2,7 @@ import Hms
 import Hms.Print.Expr
 import Hms.Print.Str
 import Hms.Print.Optimize
+import Hms.Fuzz.Rules
 import Driver.Decode
 /-! Driver commands of the "Print" area (C19, C20). `dispatchPrint cmd payload` answers `some line`
 for the commands it owns and `none` otherwise.
@@ -11,6 +12,10 @@ for the commands it owns and `none` otherwise.
   tokens again (tie: the tokens of the Go `String()` output must be `flat`).
 * `strlit (<code points>)` → `P=(<code points of quote (escape s)>) | R=<n>:<kind>:(<value>)`:
   the model of the string literal printers and what the lexer model reads back.
+* `variantcheck <modules before> | <modules after>` → `OK` | `MISMATCH <where>` | `DECODE-ERROR x…`:
+  is the entry module the transformer built (its analysed AST before printing), function by
+  function and node by node, the original or an instance of a rule of `Hms.Fuzz.Rules`
+  (spans, recorded types and identifier flags are not compared)?
 * `optprefix ((<n> (<i> …)) …)` → `OK <k> …`: for every function body with `n` statements of which
   those at the listed indices have recorded type `never`, the number of statements the optimizer
   model keeps.
@@ -66,11 +71,199 @@ def cmdOptPrefix (payload : String) : String :=
     | none => "BAD-INPUT"
   | _ => "BAD-INPUT"
 
+/-! ## C20: is a variant an instance of the modelled rules? -/
+
+open Hms.Core Hms.Fuzz in
+mutual
+/-- Canonical text of an expression without spans, recorded types and identifier flags. -/
+partial def showE : Expr → String
+  | .int _ v => s!"(int {v})"
+  | .float _ b => s!"(float {b})"
+  | .bool _ b => s!"(bool {b})"
+  | .str _ s => s!"(str {Sexp.hexOfString s})"
+  | .null _ => "null"
+  | .none _ => "none"
+  | .ident _ _ n _ _ _ => s!"(id {n})"
+  | .range _ a b i => s!"(range {showE a} {showE b} {i})"
+  | .list _ _ xs => "(list " ++ " ".intercalate (xs.map showE) ++ ")"
+  | .anyobj _ => "anyobj"
+  | .obj _ _ fs => "(obj " ++ " ".intercalate (fs.map fun (k, e) => s!"({Sexp.hexOfString k} {showE e})") ++ ")"
+  | .lambda _ _ ps _ b => "(lambda (" ++ " ".intercalate (ps.map (·.name)) ++ s!") {showB b})"
+  | .grouped _ e => s!"(g {showE e})"
+  | .pre _ _ op e => s!"(pre {repr op} {showE e})"
+  | .infix _ _ op l r => s!"(infix {repr op} {showE l} {showE r})"
+  | .assign _ op l r => s!"(assign {repr op} {showE l} {showE r})"
+  | .call _ _ b as sp => s!"(call {showE b} (" ++ " ".intercalate (as.map fun (_, e) => showE e) ++ s!") {sp})"
+  | .index _ _ b i => s!"(index {showE b} {showE i})"
+  | .member _ _ b n op => s!"(member {showE b} {n} {repr op})"
+  | .cast _ _ e => s!"(cast {showE e})"
+  | .blockE b => s!"(blockexpr {showB b})"
+  | .ifE _ _ c t e => s!"(if {showE c} {showB t} " ++ (match e with | some b => showB b | none => "none") ++ ")"
+  | .matchE _ _ c arms d =>
+    s!"(match {showE c} (" ++ " ".intercalate (arms.map fun (ls, a) =>
+      "((" ++ " ".intercalate (ls.map showE) ++ s!") {showE a})") ++ ") " ++
+      (match d with | some e => showE e | none => "none") ++ ")"
+  | .tryE _ _ t id c => s!"(try {showB t} {id} {showB c})"
+partial def showS : Stmt → String
+  | .typedef _ => "typedef"
+  | .trigger _ cb kw tr as => s!"(trigger {cb} {kw} {tr} (" ++ " ".intercalate (as.map fun (_, e) => showE e) ++ "))"
+  | .letS _ n _ _ _ e => s!"(let {n} {showE e})"
+  | .ret _ e => "(return " ++ (match e with | some e => showE e | none => "none") ++ ")"
+  | .brk _ => "break"
+  | .cont _ => "continue"
+  | .loopS _ b => s!"(loop {showB b})"
+  | .whileS _ c b => s!"(while {showE c} {showB b})"
+  | .forS _ n _ it b => s!"(for {n} {showE it} {showB b})"
+  | .exprS _ e => s!"(expr {showE e})"
+partial def showB : Block → String
+  | .mk _ _ ss e => "(block (" ++ " ".intercalate (ss.map showS) ++ ") " ++
+      (match e with | some e => showE e | none => "none") ++ ")"
+end
+
+open Hms.Core Hms.Fuzz in
+mutual
+/-- `e'` is `e` or an instance of a rule of `Hms.Fuzz.Rules` applied to `e` (with variants of the
+sub-expressions where the rule transforms them). -/
+partial def varE (e e' : Expr) : Bool :=
+  showE e == showE e' ||
+  (match e with
+    | .int .. => uselessValues.any fun k =>
+        [litAddSub k e, litSubAdd k e, litMulDiv k e].any fun c => showE c == showE e'
+    | .float .. => uselessFloatBits.any fun kb =>
+        [litFloat .add .sub kb e, litFloat .sub .add kb e, litFloat .mul .div kb e].any fun c => showE c == showE e'
+    | .bool .. => showE (notNot e) == showE e'
+    | .grouped .. => showE (groupAgain e) == showE e' || showE (groupBlock e) == showE e'
+    | .cast .. => showE (castTwice e) == showE e'
+    | .lambda _ _ _ _ body =>
+      (match e' with
+        | .lambda _ _ _ _ body' => varB body body' && showE e' == showE (match e with
+            | .lambda sp ty ps ret _ => .lambda sp ty ps ret body'
+            | x => x)
+        | _ => false)
+    | .ifE sp _ c t el =>
+      (match e' with
+        | .ifE _ _ c' t' el' =>
+          (showE c == showE c' && varB t t' && (match el, el' with
+            | some a, some a' => varB a a'
+            | none, none => true
+            | _, _ => false))
+          || (match c', el' with
+            | .pre _ _ .not (.grouped _ c''), some eb' =>
+              varE c c'' && varB t eb' && (match el with
+                | some elb => varB elb t'
+                | none => showB t' == showB (emptyBlock sp))
+            | _, _ => false)
+        | _ => false)
+    | .infix _ _ op l r =>
+      ((op == .add || op == .mul) && showE (commute e) == showE e')
+      || ((op == .add || op == .sub) && showE (subAsAddNeg e) == showE e')
+      || (op == .mul && mulAsLoopApplies e && showE (mulAsLoop e) == showE e')
+      || ((op == .eq || op == .ne) && (match e' with
+          | .pre _ _ .not (.grouped _ (.infix _ _ _ l' r')) =>
+            varE l l' && varE r r' && showE e' == showE (eqAsNotNe l' r' e)
+          | .pre _ _ .not (.grouped _ (.grouped _ (.infix _ _ _ l' r'))) =>
+            varE l l' && varE r r' && showE e' == showE (eqAsNotNe2 l' r' e)
+          | _ => false))
+      || ((op == .lt || op == .gt || op == .le || op == .ge) && (match e' with
+          | .infix _ _ _ r' l' => varE l l' && varE r r' && showE e' == showE (cmpSwap l' r' e)
+          | _ => false))
+    | _ => false)
+partial def varOptE (e e' : Option Expr) : Bool :=
+  match e, e' with
+  | some a, some a' => varE a a'
+  | none, none => true
+  | _, _ => false
+/-- `s'` is `s`, a node-specific variant of `s`, or one of the wrappers around `s`. -/
+partial def varS (s s' : Stmt) : Bool :=
+  showS s == showS s'
+  || showS s' == showS (ifTrueWrap s) || showS s' == showS (iterOnceWhile s) || showS s' == showS (iterOnceFor s)
+  || (match s, s' with
+    | .letS _ n _ _ _ e, .letS _ n' _ _ _ e' => n == n' && varE e e'
+    | .ret _ e, .ret _ e' => varOptE e e'
+    | .ret _ e, .loopS _ (.mk _ _ [.ret _ e'] none) => varOptE e e'
+    | .brk _, _ => showS s' == showS (inBlock s)
+    | .loopS _ b, .loopS _ b' => varB b b'
+    | .loopS _ b, .whileS _ (.bool _ true) b' => varB b b'
+    | .whileS _ c b, .whileS _ c' b' => varE c c' && varB b b'
+    | .whileS _ c b, .loopS _ (.mk _ _ stmts' none) =>
+      (match stmts' with
+        | [.exprS _ (.ifE _ _ c' tb' (some _))] =>
+          showE c' == showE c && varB b tb' && showS s' == showS (whileAsLoop1 (fun _ => tb') s)
+        | _ => false)
+      || (match b, stmts' with
+        | .mk bsp _ bst be, _ :: rest =>
+          let body := rest.take bst.length
+          let tail := rest.drop bst.length
+          let tb' : Option Block := match be, tail with
+            | none, [] => some (.mk bsp .null body none)
+            | some _, [.exprS _ e''] => some (.mk bsp .null body (some e''))
+            | _, _ => none
+          (match tb' with
+            | some tb' => varB b tb' && showS s' == showS (whileAsLoop0 (fun _ => tb') s)
+            | none => false)
+        | _, _ => false)
+    | .forS _ n _ it b, .forS _ n' _ it' b' => n == n' && varE it it' && varB b b'
+    | .exprS _ e, .exprS _ e' => varE e e'
+    | _, _ => false)
+partial def varB (b b' : Block) : Bool :=
+  match b, b' with
+  | .mk _ _ ss e, .mk _ _ ss' e' =>
+    ss.length == ss'.length && (ss.zip ss').all (fun p => varS p.1 p.2) && varOptE e e'
+end
+
+open Hms.Core in
+/-- First statement pair of two function bodies that does not match (for the report). -/
+def firstMismatch (b b' : Block) : String :=
+  match b, b' with
+  | .mk _ _ ss e, .mk _ _ ss' e' =>
+    if ss.length != ss'.length then s!"statement count {ss.length} vs {ss'.length}"
+    else match (ss.zip ss').find? (fun p => !varS p.1 p.2) with
+      | some (s, s') => s!"stmt {(showS s).take 300} => {(showS s').take 500}"
+      | none => if varOptE e e' then "?" else "trailing expression"
+
+open Hms.Core in
+def cmdVariantCheck (payload : String) : String :=
+  match payload.splitOn " | " with
+  | [a, b] =>
+    match Sexp.parse a, Sexp.parse b with
+    | some sa, some sb =>
+      match Decode.program sa, Decode.program sb with
+      | .ok pa, .ok pb =>
+        match pa.find? (·.name == "main"), pb.find? (·.name == "main") with
+        | none, none => "OK"
+        | some ma, some mb =>
+          let fnBad := mb.fns.findSome? fun f' =>
+            match ma.fns.find? (·.name == f'.name) with
+            | none => some s!"fn {f'.name}: not in the original"
+            | some f => if varB f.body f'.body then none else some s!"fn {f'.name}: {firstMismatch f.body f'.body}"
+          let globBad := mb.globals.findSome? fun g' =>
+            match g' with
+            | .letS _ n _ _ _ e' =>
+              let orig := ma.globals.findSome? fun g => match g with
+                | .letS _ m _ _ _ e => if m == n then some e else none
+                | _ => none
+              (match orig with
+                | some e => if varE e e' then none else some s!"global {n}"
+                | none => some s!"global {n}: not in the original")
+            | _ => some "global statement"
+          if ma.fns.length != mb.fns.length then s!"MISMATCH function count {ma.fns.length} vs {mb.fns.length}"
+          else if ma.globals.length != mb.globals.length then "MISMATCH global count"
+          else match fnBad, globBad with
+            | some w, _ => "MISMATCH " ++ w
+            | none, some w => "MISMATCH " ++ w
+            | none, none => "OK"
+        | _, _ => "MISMATCH no entry module"
+      | .error e, _ => s!"DECODE-ERROR {Sexp.hexOfString e}"
+      | _, .error e => s!"DECODE-ERROR {Sexp.hexOfString e}"
+    | _, _ => "BAD-INPUT"
+  | _ => "BAD-INPUT"
+
 def dispatchPrint (cmd : String) (payload : String) : Option String :=
   match cmd with
   | "printexpr" => some (cmdPrintExpr payload)
   | "strlit" => some (cmdStrLit payload)
   | "optprefix" => some (cmdOptPrefix payload)
+  | "variantcheck" => some (cmdVariantCheck payload)
   | _ => none
 
 end Driver
